@@ -27,6 +27,7 @@ type SecretRec struct {
 	Op      string // label of the harness operation during which it was created
 	Hash    [32]byte
 	Bytes   []byte // private copy of the secret's bytes (for artefact scanning)
+	Ptr     string // %p of the wrapper handed to the SDK (matches VerifKeyInfo.Secret)
 	Src     []byte // the very slice handed to New (retained so that it can be inspected later)
 
 	mu              sync.Mutex
@@ -68,9 +69,28 @@ type Ledger struct {
 	mu     sync.Mutex
 	recs   []*SecretRec
 	calls  int
+	log    []LedCall
 	FailAt map[int]bool  // creation call index (0-based) -> fail without allocating
 	label  atomic.Value  // string
 	NoHash bool          // do not read CreateRandom secrets back (keeps mprotect traffic unchanged)
+}
+
+// LedCall is one creation call on the monitored factory.
+type LedCall struct {
+	Seq    int64
+	Idx    int
+	Kind   string // new | random
+	Failed bool
+}
+
+// CallLog returns the creation calls with index >= from.
+func (l *Ledger) CallLog(from int) []LedCall {
+	l.mu.Lock()
+	defer l.mu.Unlock()
+	if from >= len(l.log) {
+		return nil
+	}
+	return append([]LedCall(nil), l.log[from:]...)
 }
 
 // NewLedger returns a ledger over inner.
@@ -117,12 +137,14 @@ func (l *Ledger) Live() []*SecretRec {
 	return out
 }
 
-func (l *Ledger) next() (idx int, fail bool) {
+func (l *Ledger) next(kind string) (idx int, fail bool) {
 	l.mu.Lock()
 	defer l.mu.Unlock()
 	idx = l.calls
 	l.calls++
-	return idx, l.FailAt[idx]
+	fail = l.FailAt[idx]
+	l.log = append(l.log, LedCall{Seq: Seq.Add(1), Idx: idx, Kind: kind, Failed: fail})
+	return idx, fail
 }
 
 func (l *Ledger) add(r *SecretRec) {
@@ -134,7 +156,7 @@ func (l *Ledger) add(r *SecretRec) {
 
 // New implements securememory.SecretFactory.
 func (l *Ledger) New(b []byte) (securememory.Secret, error) {
-	_, fail := l.next()
+	_, fail := l.next("new")
 	rec := &SecretRec{Seq: Seq.Add(1), Size: len(b), Creator: "new", Op: l.label.Load().(string), Hash: sha256.Sum256(b), Src: b, Bytes: append([]byte(nil), b...)}
 	if fail {
 		// an allocation failure (mmap/mlock limit) happens before the source is copied or wiped
@@ -149,12 +171,14 @@ func (l *Ledger) New(b []byte) (securememory.Secret, error) {
 	}
 	rec.inner = s
 	l.add(rec)
-	return &monSecret{rec: rec}, nil
+	ms := &monSecret{rec: rec}
+	rec.Ptr = fmt.Sprintf("%p", ms)
+	return ms, nil
 }
 
 // CreateRandom implements securememory.SecretFactory.
 func (l *Ledger) CreateRandom(size int) (securememory.Secret, error) {
-	_, fail := l.next()
+	_, fail := l.next("random")
 	if fail {
 		return nil, fmt.Errorf("secret factory CreateRandom: %w", ErrInjected)
 	}
@@ -167,7 +191,9 @@ func (l *Ledger) CreateRandom(size int) (securememory.Secret, error) {
 		_ = s.WithBytes(func(b []byte) error { rec.Hash = sha256.Sum256(b); rec.Bytes = append([]byte(nil), b...); return nil })
 	}
 	l.add(rec)
-	return &monSecret{rec: rec}, nil
+	ms := &monSecret{rec: rec}
+	rec.Ptr = fmt.Sprintf("%p", ms)
+	return ms, nil
 }
 
 type monSecret struct{ rec *SecretRec }
